@@ -63,6 +63,10 @@ Definition q_saved (q : pcfg_queue) (cfg : config) : config :=
   cfg_set (cfg_set cfg "guessing_info" "min_probability" (min_probability q))
           "guessing_info" "max_probability" (max_probability q).
 
+(* what a constructor reads back from a config *)
+Definition cfg_max (d : P) (cfg : config) : P := cfg_getfloat d cfg "guessing_info" "max_probability".
+Definition cfg_min (d : P) (cfg : config) : P := cfg_getfloat d cfg "guessing_info" "min_probability".
+
 (* what a session does with the object: call next n times, keep what it returned
    (newest first) *)
 Definition q_step (nx : pcfg_queue -> option item * pcfg_queue) (s : list item * pcfg_queue)
